@@ -116,6 +116,17 @@ theorem leafKind_ok (s : Sp) (o : Obj) (hs : supported ptm s = true) (hev : ev p
         cases hv : ev ptm v with
         | error e => simp [hk, hv] at hev
         | ok ov => simp [hk, hv] at hev; subst hev; exact ⟨rfl, rfl⟩
+    case triTyping k v w =>
+      simp only [ev] at hev
+      cases hk : ev ptm k with
+      | error e => simp [hk] at hev
+      | ok ok' =>
+        cases hv : ev ptm v with
+        | error e => simp [hk, hv] at hev
+        | ok ov =>
+          cases hw : ev ptm w with
+          | error e => simp [hk, hv, hw] at hev
+          | ok ow => simp [hk, hv, hw] at hev; subst hev; exact ⟨rfl, rfl⟩
     case fcls k => simp [ev] at hev; subst hev; exact ⟨rfl, rfl, rfl⟩
     case bareCls c => simp [ev] at hev; subst hev; exact ⟨rfl, rfl, rfl⟩
     case mapBare => simp [ev] at hev; subst hev; exact ⟨rfl, rfl, rfl⟩
